@@ -3,6 +3,7 @@
 package main
 
 import (
+	"strings"
 	"bufio"
 	"fmt"
 	"strconv"
@@ -64,7 +65,7 @@ func init() {
 					UserName:        datatype.OctetString("CHF"),
 					CcRequestType:   cd.CcRequestType(u(t[2])),
 					CcRequestNumber: datatype.Unsigned32(u(t[3])),
-					RequestedAction: cd.RequestedAction(u(t[4])),
+					RequestedAction: cd.RequestedAction(u(strings.TrimSuffix(t[4], "-"))),
 					SubscriptionId: &cd.SubscriptionId{
 						SubscriptionIdType: cd.SubscriptionIdType(u(t[5])),
 						SubscriptionIdData: datatype.UTF8String(sub),
@@ -78,6 +79,16 @@ func init() {
 				msg := diam.NewRequest(charging_code.ABMF_CreditControl, charging_code.Re_interface, dict.Default)
 				if err := msg.Marshal(ccr); err != nil {
 					return "marshal-error"
+				}
+				if strings.HasSuffix(t[4], "-") {
+					// the optional Requested-Action AVP is left out of the request
+					m2 := diam.NewRequest(charging_code.ABMF_CreditControl, charging_code.Re_interface, dict.Default)
+					for _, av := range msg.AVP {
+						if av.Code != 436 {
+							m2.AddAVP(av)
+						}
+					}
+					msg = m2
 				}
 				a, st := abmfPeer.roundTrip(msg)
 				rep := ""
@@ -168,8 +179,12 @@ func genAbmf(o genOpts, w *bufio.Writer) {
 				}
 				return abmfAmounts[r.intn(len(abmfAmounts))]
 			}
-			fmt.Fprintf(w, "abmf ccr %s %d %d %d %d %s %d %d %d\n", hexOf([]byte(fmt.Sprintf("s%d", r.intn(1000)))),
-				reqType, r.intn(1<<20), action, subType, hexOf([]byte(ue[5:])), rg, amt(), amt())
+			actTok := strconv.Itoa(action)
+			if r.chance(12) {
+				actTok = "0-" // no Requested-Action AVP at all (the server sees the zero value, DIRECT_DEBITING)
+			}
+			fmt.Fprintf(w, "abmf ccr %s %d %d %s %d %s %d %d %d\n", hexOf([]byte(fmt.Sprintf("s%d", r.intn(1000)))),
+				reqType, r.intn(1<<20), actTok, subType, hexOf([]byte(ue[5:])), rg, amt(), amt())
 			done++
 		}
 	}
